@@ -5,10 +5,13 @@ CONSTANTS
  Recorders = {1,2}
  Drainers = {4,5}
  LockedDrain = TRUE
+ BS = 64
+ DrainWaitsFirstBlockOnly = FALSE
+ CF07aFixed = FALSE
  Scope = "conc"
  MaxOps = 0
  RecLimit = 1
  DrainLimit = 2
  UpLimit = 1
-INVARIANTS TypeOK Conservation RenderFaithful RenderBounds NoLossSequential CounterMeaning HelpFirst RenderTwice LabelsOK
+INVARIANTS TypeOK Conservation RenderFaithful RenderBounds NoSkippedSample NoLossSequential CounterMeaning HelpFirst RenderTwice LabelsOK
 CHECK_DEADLOCK FALSE
